@@ -31,6 +31,7 @@ class LogixScenario:
         self.dev = reflogix.LogixDevice(ident, rng, self.b.log, self.prj)
         pol = rt.Policy()
         pol.accept_large_fo = large
+        pol.list_identity_session = rng.choice(["echo", "echo", "zero", "other"])
         routes = {((1, slot),): self.dev}
         if micro:
             # a Micro800 has no backplane: it is reached with an empty route only, a hop through port 1 does not exist
